@@ -1,5 +1,7 @@
 """C03 - function / method round trip: parse.function(emit.function(ir, ...)) describes the same interface."""
 from harness.rt import *  # noqa: F401,F403
+from harness import gridrun
+from harness.gridrun import grid_ob  # noqa: F401  (obligation bodies call H.grid_ob)
 from harness.rt import mk_ob
 from lib.domain import SHAPES
 
@@ -87,4 +89,5 @@ def obligations(tier, seed):
                     obs.append(mk_ob("rt", "rt", kind, sid, opts, tier, funcs=FUNCS, pl=2, dr=2, timeout=600))
         for sid in ("p1_int_d", "p1_str_s", "p1_kwargs", "p2_plain_then_d"):
             obs.append(mk_ob("text", "rt", "function", sid, GRID_Q[0][1], tier, extra=", text=True", kind="F", fixed={"p": "the a b"}, str_alpha="STR_T", funcs=FUNCS))
+    obs += gridrun.obligations('C03', tier, FUNCS)
     return obs
